@@ -13,6 +13,7 @@
 -/
 import BioCantor.Proofs.DigClasses
 import BioCantor.Proofs.DigDict
+import BioCantor.Proofs.DigImage
 namespace BioCantor.Props.C08
 open BioCantor BioCantor.Spec.Digest BioCantor.Model.Digest BioCantor.Proofs.Dig
 open BioCantor.Spec.Qual (Str strLt strLe)
@@ -211,6 +212,22 @@ theorem fc_dict_roundtrip (md5 : List Str → Str) (cs : Int) (o : FcObj) (h : F
     fcFromDict md5 cs (fcToDict o) = .ok o := fc_roundtrip md5 cs o h
 theorem vc_dict_roundtrip (md5 : List Str → Str) (cs : Int) (o : VcObj) (h : VcWF o) :
     vcFromDict md5 cs (vcToDict o) = .ok o := vc_roundtrip md5 cs o h
+
+/-- T3-image: the state assumed above is exactly what the importer establishes — EVERY object `from_dict` accepts,
+    from any dictionary whatsoever (alias Biotype names, unsorted / repeated qualifier values, unsorted variants,
+    GUIDs given or absent), is restored unchanged by export → import.  (`cs` = start of the chunk parent handed to
+    `from_dict`, 0 otherwise.) -/
+theorem imported_objects_survive_export_import (md5 : List Str → Str) (cs : Int) :
+    (∀ d o, txFromDict md5 d = .ok o → txFromDict md5 (txToDict o) = .ok o) ∧
+    (∀ d o, cdsFromDict md5 d = .ok o → cdsFromDict md5 (cdsToDict o) = .ok o) ∧
+    (∀ d o, featFromDict md5 d = .ok o → featFromDict md5 (featToDict o) = .ok o) ∧
+    (∀ d o, varFromDict md5 d = .ok o → varFromDict md5 (varToDict o) = .ok o) ∧
+    (∀ d o, geneFromDict md5 cs d = .ok o → geneFromDict md5 cs (geneToDict o) = .ok o) ∧
+    (∀ d o, fcFromDict md5 cs d = .ok o → fcFromDict md5 cs (fcToDict o) = .ok o) ∧
+    (∀ d o, vcFromDict md5 cs d = .ok o → vcFromDict md5 cs (vcToDict o) = .ok o) :=
+  ⟨fun _ _ h => tx_import_stable md5 h, fun _ _ h => cds_import_stable md5 h, fun _ _ h => feat_import_stable md5 h,
+   fun _ _ h => var_import_stable md5 h, fun _ _ h => gene_import_stable md5 h, fun _ _ h => fc_import_stable md5 h,
+   fun _ _ h => vc_import_stable md5 h⟩
 
 /-- T3-tx': `to_dict(from_dict(d)) = d` on the image of `to_dict`. -/
 theorem tx_dict_roundtrip_image (md5 : List Str → Str) (o : TxObj) (h : TxWF o) :
